@@ -31,6 +31,7 @@ func init() {
 			{ID: "C19-R5", Title: "encoders return storage of their own (nothing taken from and returned to a pool)", Floor: 1, Run: func(c *core.Ctx) { pooledResult(c) }},
 			{ID: "C19-R6", Title: "results are cached only after their error was checked", Floor: 3, Run: func(c *core.Ctx) { publishBeforeErrorCheck(c) }},
 			{ID: "C19-R7", Title: "MarshalJSON methods quote with encoding/json", Floor: 3, Run: jsonMarshalersUseJSON},
+			{ID: "C19-R8", Title: "limited reads are checked for truncation", Floor: 1, Run: limitedReadsAreChecked},
 		},
 	})
 }
